@@ -177,6 +177,82 @@ def walrus(d, k):
         out.append("none")
     return out
 
+class Pt:
+    def __init__(self, x):
+        self.x = x
+
+def matcher(v):
+    match v:
+        case int() | float():
+            return "num"
+        case "a" | "b":
+            return "ab"
+        case None:
+            return "none"
+        case Pt(x=0):
+            return "origin"
+        case Pt() if v.x > 5:
+            return "far"
+        case Box.__name__:
+            return "boxname"
+        case other:
+            return ("other", type(other).__name__)
+
+def matcher_expr(d, k):
+    match d.get(k):
+        case str():
+            return "s"
+        case _:
+            return "?"
+
+def op_helpers(b, d):
+    from operator import attrgetter, itemgetter, methodcaller
+    from functools import partial
+    import contextlib
+    get_left = attrgetter("left")
+    first = itemgetter(0)
+    up = methodcaller("upper")
+    add = partial(max, 3)
+    out = [get_left(b), attrgetter("right")(b), first([7, 8]), up("ab"), add(1), add(9)]
+    with contextlib.suppress(KeyError):
+        out.append(d["k"])
+        out.append("after")
+    return out
+
+def _checked(fn):
+    def wrapper(self, x, *args, **kwargs):
+        if x is None:
+            raise ValueError("none")
+        self.left += 1
+        return fn(self, x, *args, **kwargs)
+    return wrapper
+
+class Deco:
+    def __init__(self):
+        self.left = 0
+
+    @_checked
+    def add(self, value, extra=0):
+        """doc"""
+        return (self.left, value + extra)
+
+def use_deco(v, e):
+    d = Deco()
+    return d.add(v, extra=e), d.add(v)
+
+def match_pair(a, b):
+    match (a, b):
+        case (None, None):
+            return "both none"
+        case (None, new):
+            return ("first", new)
+        case (old, None):
+            return ("release", old)
+        case (old, new) if old == new:
+            return "same"
+        case _:
+            return ("repoint", a, b)
+
 def make(container):
     def call(v):
         container.append(v)
@@ -207,6 +283,11 @@ INPUTS = {
     "require_form": [(1,), (3,)],
     "all_map": [([1, 2],), ([0, 1],), ([],)],
     "use_factory": [(1,), (2,)],
+    "match_pair": [(None, None), (None, 1), (1, None), (2, 2), (1, 2)],
+    "use_deco": [(1, 2), (None, 2)],
+    "op_helpers": [("BOX", {"k": 1}), ("BOX", {})],
+    "matcher": [(1,), (1.5,), ("a",), (None,), (True,), ("Box",), ([1],)],
+    "matcher_expr": [({"k": "v"}, "k"), ({"k": 1}, "k"), ({}, "k")],
     "walrus": [({"a": 1}, "a"), ({"a": 1, "b": 2}, "z"), ({}, "z")],
     "prod": [([1, 2], ["a", "b"]), ([], [1]), ([1], [])],
     "dispatch": [("a", []), ("b", []), ("z", [])],
@@ -217,7 +298,8 @@ INPUTS = {
 def _run(ns, name, args):
     import copy
     try:
-        return ("ok", ns[name](*copy.deepcopy(args)))
+        args = tuple(ns["Box"](2) if a == "BOX" else a for a in copy.deepcopy(args))
+        return ("ok", ns[name](*args))
     except Exception as e:  # noqa: the kind of exception is what is compared
         return ("raise", type(e).__name__)
 
@@ -245,7 +327,7 @@ def main():
                 print("transform self-test: %s%r gives %r before and %r after the loader's rewrites" % (name, args, a, b))
     # the cases must actually exercise the rewrites
     expect_rewritten = {"search_break_carry", "continue_rows", "nested_rows", "break_no_carry", "reflect", "dict_items", "two_way", "two_way_stmt",
-                        "starred", "ifexp_iter", "bulk", "raise_form", "require_form", "all_map", "dispatch", "attr_dispatch", "prod", "walrus"}
+                        "starred", "ifexp_iter", "bulk", "raise_form", "require_form", "all_map", "dispatch", "attr_dispatch", "prod", "walrus", "matcher", "matcher_expr", "op_helpers", "match_pair"}
     for name in sorted(expect_rewritten):
         f0 = next(n for n in ast.walk(tree0) if isinstance(n, ast.FunctionDef) and n.name == name)
         f1 = next(n for n in ast.walk(ast.parse(src1)) if isinstance(n, ast.FunctionDef) and n.name == name)
